@@ -314,6 +314,8 @@ def run(ck):
                     a_ = t_.single_atom()
                     if isinstance(a_, T.App) and a_.op == "t":
                         x_ = a_.args[0].single_atom() if isinstance(a_.args[0], T.Poly) else None
+                        if isinstance(x_, T.Sym) and x_.name.startswith("file("):
+                            return T.app("index", a_.args[0], (("slice", None, None, None), k))  # the transposed two-column file: row k is column k
                         # the transpose of the first columns file[:, :n] (n >= 2): row k of it is column k of the file
                         if isinstance(x_, T.App) and x_.op == "index" and len(x_.args[1]) == 2 and tuple(x_.args[1][0]) == ("slice", None, None, None):
                             sl = x_.args[1][1]
